@@ -42,13 +42,16 @@ MANIFEST = {
             "__getitem__/_make_contigous write back, prepend-mode chunked reader). Theorems for ALL lists of valid records: "
             "decode(encode recs) = recs field by field (odd and even l_seq), unmapped records decode to '*', reference interval = "
             "pos + sum of reference-consuming op lengths with the consuming set tabulated from the running code, chunked reading "
-            "with every chunk size >= largest record = whole read, write back of any selection = encoding of the selected records. "
-            "Fixed offsets, CIGAR/sequence alphabets, consuming set and the two repaired rules are re-extracted from /repo on every "
+            "with every chunk size >= largest record = whole read (records AND the chunks' own bytes), write back of any selection = encoding of "
+            "the selected records; header round trip (magic, l_text, n_ref, name/length records) for every valid header, whole-file "
+            "round trip through BGZF members, write_file / write_chunks (header replayed byte for byte + selected records / chunk stream "
+            "+ EOF block reads back as the same file), alignment_to_interval column-wise over ragged CIGAR arrays = per-record intervals. "
+            "Fixed offsets, CIGAR/sequence alphabets, consuming set/codes, the 28-byte EOF block and the two repaired rules are re-extracted from /repo on every "
             "run into Gen/C16.lean and re-checked by the kernel. Correspondence: files from an independent Python encoder, "
             "impl vs Lean model vs Lean spec vs oracle.",
     "note": "gzip/BGZF decompression, NumPy indexing and npstructures ragged slicing are modelled as list operations and exercised "
             "by the correspondence; int32 wrap-around outside the validity bounds (pos + reference length >= 2^31, l_seq >= 2^31) "
-            "is outside the modelled domain. Measured (16 cores, seeds 0-3): quick 8-18 s / ~3.1k cases, thorough 87-160 s / ~55k cases "
+            "is outside the modelled domain. Measured (16 cores, seeds 0-3): quick 28-40 s / ~3.4k cases, thorough 2-4 min / ~60k cases "
             "(every chunk size from the largest record to file size + 2 for the small files). Defects found and fixed in /repo: "
             "ebaee36 (unmapped -> last reference name; zero-reference BAM unreadable), d080e2f (uint16 wrap of n_cigar_op*4).",
     "technique": "Lean 4 proof (induction over the record list) over an executable decoder model + spec-level encoder; tables regenerated "
